@@ -18,6 +18,7 @@ RULE = (
     'positions), random programs to depth 6/length 12; distinct = distinct (nesting signature of classes+argument kinds, exception position); '
     'non-trivial iff at least one publicly visible field changed inside the program (so a restore is observable)'
     "; pass 5: library operations (exact / heteroskedastic / variational+fantasy / CIQ / cylindrical / lazy-kernel) built before, inside, or used after a user's block for every settings class"
+    '; pass 6: per-dtype settings given exactly 0'
 )
 REQUIRED = ["library_call_keeps_block_values", "enter_matches_model", "exit_matches_model", "end_equals_defaults", "inner_value_visible", "reentered_object_end_equals_defaults", "reentered_object_inner_value_visible"]
 ASSUMPTIONS = [
